@@ -239,11 +239,7 @@ func (e *Exec) walkFields(v Val, t types.Type, path []int) (Val, types.Type) {
 			return e.havocVal("fld", f.Type()), f.Type()
 		}
 		v = e.readField(ref.T, t, f)
-		if s, ok := v.(SliceV); ok {
-			e.sliceFacts(s)
-		} else if sv, ok := v.(SV); ok && kindOf(f.Type()) == kRef {
-			e.assume(e.existing(sv.T))
-		}
+		e.refFacts(v, f.Type())
 		t = f.Type()
 	}
 	return v, t
@@ -678,6 +674,9 @@ func (e *Exec) refFacts(v Val, t types.Type) {
 	switch x := v.(type) {
 	case SV:
 		k := kindOf(t)
+		if k == kStruct && strings.HasPrefix(x.T, "(sub.") {
+			return
+		}
 		if k == kRef || k == kStruct {
 			e.assume(e.existing(x.T))
 		} else if k == kInt {
@@ -839,6 +838,7 @@ func (e *Exec) box(v Val, from types.Type) Val {
 		if !ok {
 			return iv(e.fresh("boxed", SInt))
 		}
+		e.unwrapFacts(sv.T, from)
 		if _, isPtr := from.Underlying().(*types.Pointer); isPtr {
 			// nil pointer in interface is a non-nil interface; we identify interface value and pointer
 			// (a typed-nil-in-interface is outside the modelled subset)
@@ -908,4 +908,52 @@ func (e *Exec) assertType(v Val, t types.Type, assumeOK bool) Val {
 func (e *Exec) ifaceImpl(v string, iface types.Type) string {
 	e.declareFun("implements", []string{SInt, SInt}, SBool)
 	return mkAnd(mkNot(mkEq(v, "0")), sx("implements", sx("dyntype", v), mkInt(int64(e.g.typeID(iface)))))
+}
+
+// unwrapFacts: a value of a type whose Unwrap() method returns one of its fields wraps that field's value.
+func (e *Exec) unwrapFacts(ref string, t types.Type) {
+	ms := types.NewMethodSet(t)
+	sel := ms.Lookup(nil, "Unwrap")
+	if sel == nil {
+		for i := 0; i < ms.Len(); i++ {
+			if ms.At(i).Obj().Name() == "Unwrap" {
+				sel = ms.At(i)
+			}
+		}
+	}
+	if sel == nil {
+		return
+	}
+	fn, ok := sel.Obj().(*types.Func)
+	if !ok {
+		return
+	}
+	fi := e.g.funcs[fn.Origin()]
+	if fi == nil || len(fi.decl.Body.List) != 1 || fi.decl.Recv == nil || len(fi.decl.Recv.List[0].Names) == 0 {
+		return
+	}
+	ret, ok := fi.decl.Body.List[0].(*ast.ReturnStmt)
+	if !ok || len(ret.Results) != 1 {
+		return
+	}
+	se, ok := ret.Results[0].(*ast.SelectorExpr)
+	if !ok {
+		return
+	}
+	id, ok := se.X.(*ast.Ident)
+	if !ok || id.Name != fi.decl.Recv.List[0].Names[0].Name {
+		return
+	}
+	st, _ := structOf(t)
+	if st == nil {
+		return
+	}
+	for i := 0; i < st.NumFields(); i++ {
+		if st.Field(i).Name() == se.Sel.Name {
+			w := e.asInt(e.readField(ref, t, st.Field(i)))
+			e.declareFun("wraps", []string{SInt, SInt}, SBool)
+			e.assume(mkImp(mkNot(mkEq(w, "0")), mkAnd(sx("wraps", ref, w),
+				fmt.Sprintf("(forall ((s Int)) (! (=> (wraps %s s) (wraps %s s)) :pattern ((wraps %s s))))", w, ref, ref))))
+		}
+	}
 }
